@@ -224,8 +224,12 @@ func (batch *Batch) ReadMessage() (Message, error) {
 	)
 	// A batch may start before the requested offset so skip messages
 	// until the requested offset is reached.
-	for batch.conn != nil && offset < batch.conn.offset {
-		if err != nil {
+	for batch.conn != nil {
+		batch.conn.mutex.Lock()
+		connOffset := batch.conn.offset
+		batch.conn.mutex.Unlock()
+
+		if offset >= connOffset || err != nil {
 			break
 		}
 		offset, timestamp, headers, err = batch.readMessage(
